@@ -46,6 +46,34 @@ pub mod syn_noref {
     pub struct NoRef {}
 }
 
+/// no reference unit: the name order differs from the order of the variant
+/// identifiers (multi-word vs run-together names, lower-case initial, digits)
+/// and from the order of the symbols
+pub mod syn_noref2 {
+    use quantities::prelude::*;
+    #[quantity]
+    #[unit(Sea_Mile, "sm")]
+    #[unit(SeaBed, "sb")]
+    #[unit(mile, "mi")]
+    #[unit(Yard_2, "y2")]
+    #[unit(Yard_10, "y10", "ten")]
+    pub struct NoRef2 {}
+}
+
+/// reference unit declared last, a scale-one unit declared before it, descending
+/// declaration order, digits and acronyms in identifiers
+pub mod syn_order {
+    use quantities::prelude::*;
+    #[quantity]
+    #[unit(Big_XMLUnit, "bx", 1e6)]
+    #[unit(One_Too, "1²", 1.00)]
+    #[unit(Mid_2nd, "m2", 2.5)]
+    #[unit(Mid_1st, "m1", 2.50)]
+    #[unit(Tiny, "t", MILLI, 0.001)]
+    #[ref_unit(Base, "b", NONE)]
+    pub struct Order {}
+}
+
 /// the suite's derived fixtures (product and quotient of two basic types, square)
 pub mod syn_derived {
     use quantities::prelude::*;
